@@ -47,6 +47,9 @@ func (c *Chip) doExternalAuthenticate(p *apdu.Command) ([]byte, uint16) {
 		return nil, 0x6700
 	}
 	kenc, kmac := BACKeys(c.Cfg.MRZInfo)
+	if c.Cfg.BACKeyEnc != nil {
+		kenc, kmac = c.Cfg.BACKeyEnc, c.Cfg.BACKeyMac // an impostor working with keys of its own choice
+	}
 	eifd, mifd := p.Data[:32], p.Data[32:]
 	if !bytes.Equal(mac.RetailMAC(kmac, mac.PadM2(eifd, 8)), mifd) {
 		return nil, 0x6300
